@@ -172,7 +172,11 @@ def worker(args):
     chunk, full = args
     out = {"records": [], "calls": 0, "cases": 0}
     for c in chunk:
-        r, n = run_case(c, full)
+        try:
+            r, n = run_case(c, full)
+        except Exception as ex:
+            from . import common as _c
+            r, n = [_c.crash_record("comparison", ex, case=c)], 0
         out["records"] += r
         out["calls"] += n
         out["cases"] += 1
